@@ -6,6 +6,18 @@ use llguidance::{Matcher, ParserFactory};
 
 pub fn run() {
     let args: Vec<String> = std::env::args().collect();
+    if args.len() >= 4 && args[2] == "dump" {
+        use llguidance::api::{GrammarInit, ParserLimits};
+        let gi = GrammarInit::Serialized(TopLevelGrammar::from_lark(args[3].replace("\\n", "\n")));
+        match gi.to_internal(None, ParserLimits::default()) {
+            Err(e) => println!("rejected: {e}"),
+            Ok((gram, lex)) => {
+                println!("--- before ---\n{}", gram.to_string(Some(&lex)));
+                println!("--- after ---\n{}", gram.optimize().to_string(Some(&lex)));
+            }
+        }
+        return;
+    }
     if args.len() >= 4 && args[2] == "lark" {
         let (ws, eos) = single_byte_vocab();
         let env = make_env(&ws, eos, false);
